@@ -347,9 +347,10 @@ def keyBack : List Layer → Key → Key
 def maxKeySize : Nat := 32768
 
 /-- keys the file backend stores faithfully (see DESIGN C13 "Admissible keys"): non-empty `/`-separated
-segments, none empty, `.`-only, starting with `_`, ending in `.temp`, containing NUL, or longer than 200 bytes -/
+segments, none empty, `.`-only, starting with `_`, containing NUL, or longer than 200 bytes (a segment ending in
+`.temp` is an ordinary one since the repair F86: a write is staged under a name no entry can have) -/
 def fileSegOk (s : Key) : Bool :=
-  s ≠ [] && s ≠ [dot] && !containsDotDot s && s.head? ≠ some 95 && !endsWith s [46, 116, 101, 109, 112]
+  s ≠ [] && s ≠ [dot] && !containsDotDot s && s.head? ≠ some 95
   && !s.contains 0 && s.length ≤ 200
 
 def fileAdmissible (k : Key) : Bool := k ≠ [] && (splitSlash k).all fileSegOk
